@@ -120,6 +120,13 @@ def gen_doc(rng):
             inh = rng.random() < 0.5
             body += f'<g{t}{stroke_attrs() if inh else ""}>' + ''.join(shape(inh and rng.random() < 0.7) for _ in range(rng.randint(1, 2))) + '</g>'
         else: body += shape(False)
+    if rng.random() < 0.2:
+        # a viewBox far from square with wide round strokes: the flattening tolerance derives from its smaller side
+        w = rng.choice([16, 20, 24])
+        vb = rng.choice(['0 0 40 900', '0 0 900 40'])
+        body = (f'<polyline points="8,8 30,10 26,30" fill="none" stroke="{rng.choice(COL)}" stroke-width="{w}" stroke-linecap="round" stroke-linejoin="round"/>'
+                if rng.random() < 0.5 else f'<line x1="10" y1="12" x2="30" y2="26" stroke="{rng.choice(COL)}" stroke-width="{w}" stroke-linecap="round"/>')
+        return f'<svg xmlns="{SVGNS}" viewBox="{vb}">{body}</svg>'
     return f'<svg xmlns="{SVGNS}" viewBox="0 0 40 40">{body}</svg>'
 
 def judge_doc(doc):
